@@ -211,6 +211,7 @@ def run_real(case):
       conn = ap.AdbConnection(am.AdbTransportAdapter(dev), 4096, 'device:SER:banner')
       conn._last_id_used = case['last']
       streams = {}
+      firsts = {}
       res = []
       for op in case['ops']:
         try:
@@ -219,8 +220,15 @@ def run_real(case):
             if s is None:
               res.append('none')
             else:
+              firsts.setdefault(s._transport.local_id, s)
               streams[s._transport.local_id] = s
               res.append('s:%d' % s._transport.local_id)
+          elif op[0] == 'XS':
+            # the handle of the FIRST stream that had this id, after the id went to a later stream
+            old_handle = firsts.get(op[1])
+            if old_handle is not None and old_handle is not streams.get(op[1]):
+              old_handle.close(timeout_ms=600000)
+            res.append('ok')
           elif op[0] == 'X':
             if op[1] in streams:
               streams[op[1]].close(timeout_ms=600000)
@@ -318,6 +326,13 @@ def gen_cases(rng, tier):
         cases.append({'kind': 'S', 'limit': 8, 'last': last,
                       'ops': [['O'], ['O'], ['R', a, 0]] + tail,
                       'dev': [['K', 20, a], ['K', 30, b], ['Z', 30, b]] + extra + [['W', 20, a, 2]]})
+  # id wrap-around: stream 2 is closed by the device while stream 1 reads; a later stream gets id 2; the stale handle of
+  # the first stream 2 is then closed by its owner - the live stream 2 must not notice, its id must stay taken
+  for tail in ([['XS', 2]], [['XS', 2], ['O']], [['XS', 2], ['R', 2, 0]], [['XS', 2], ['XS', 2], ['O'], ['X', 2]]):
+    cases.append({'kind': 'S', 'limit': 4, 'last': 0,
+                  'ops': [['O'], ['O'], ['O'], ['R', 1, 0], ['X', 3], ['O'], ['O']] + tail,
+                  'dev': [['K', 101, 1], ['K', 102, 2], ['K', 103, 3], ['Z', 102, 2], ['W', 101, 1, 1], ['K', 104, 3], ['K', 105, 2],
+                          ['K', 106, 3], ['W', 105, 2, 2]]})
   # stream life cycle
   nS = 500 if tier == 'quick' else 6000
   for i in range(nS):
